@@ -16,6 +16,7 @@ func (P *Program) staticChecks(prop string) []*Obligation {
 	out = append(out, P.typeInvImmutable(prop)...)
 	out = append(out, P.funcTypeFrames(prop)...)
 	out = append(out, P.chanClosureFrames(prop)...)
+	out = append(out, P.publishedChecks(prop)...)
 	return out
 }
 
